@@ -234,7 +234,7 @@ def build_table(I):
             return float(r) if I.mode == "float" else Fraction(r)
         return z3.If(x >= 0, z3.ToInt(x + z3.RealVal("1/2")), -z3.ToInt(-x + z3.RealVal("1/2")))
 
-    @reg("f64::abs", "i32::abs", "i64::abs")
+    @reg("f64::abs", "i32::abs", "i64::abs", "i8::abs", "i16::abs", "isize::abs")
     def f_abs(I, st, a, c):
         x = a[0]
         if not is_sym(x):
@@ -277,6 +277,113 @@ def build_table(I):
         if not is_sym(x):
             return x // m
         return x / m
+
+    @reg("f64::signum")
+    def f_signum(I, st, a, c):
+        x = a[0]
+        if not is_sym(x):
+            if I.mode == "float":
+                return math.copysign(1.0, x) if not math.isnan(x) else x
+            return Fraction(1) if x >= 0 else Fraction(-1)
+        return z3.If(x >= 0, z3.RealVal(1), z3.RealVal(-1))
+
+    @reg("f64::trunc")
+    def f_trunc(I, st, a, c):
+        x = a[0]
+        if not is_sym(x):
+            t = math.floor(x) if x >= 0 else -math.floor(-x)
+            return float(t) if I.mode == "float" else Fraction(t)
+        if z3.is_int(x):
+            return x
+        return z3.If(x >= 0, z3.ToInt(x), -z3.ToInt(-x))
+
+    @reg("f64::fract")
+    def f_fract(I, st, a, c):
+        x = a[0]
+        t = f_trunc(I, st, [x], c)
+        return I.binop(st, "Sub", x, t, "f64")
+
+    @reg("f64::rem_euclid")
+    def f_rem_euclid(I, st, a, c):
+        x, m = a
+        if is_sym(m):
+            raise _i.Unsupported("symbolic modulus")
+        if not is_sym(x):
+            if I.mode == "float":
+                r = math.fmod(x, m)
+                return r + abs(m) if r < 0 else r
+            mm = abs(Fraction(m))
+            return Fraction(x) - mm * math.floor(Fraction(x) / mm)
+        mm = abs(Fraction(m))
+        q = I.ffloor(I.fdiv(st, x, mm), st)
+        return to_z3(x) - z3.RealVal(mm) * (z3.ToReal(q) if z3.is_int(q) else q)
+
+    @reg("f64::div_euclid")
+    def f_div_euclid(I, st, a, c):
+        x, m = a
+        if is_sym(m) or m <= 0:
+            raise _i.Unsupported("div_euclid divisor")
+        return I.ffloor(I.fdiv(st, x, m), st)
+
+    @reg("f64::clamp")
+    def f_clamp(I, st, a, c):
+        x, lo, hi = a
+        return T["Ord::min"](I, st, [T["Ord::max"](I, st, [x, lo], c), hi], c)
+
+    @reg("f64::copysign")
+    def f_copysign(I, st, a, c):
+        x, s_ = a
+        ax = f_abs(I, st, [x], c)
+        if not is_sym(s_) and not is_sym(ax):
+            return ax if s_ >= 0 else -ax
+        return z3.If(to_z3(s_) >= 0, to_z3(ax), -to_z3(ax))
+
+    @reg("f64::powi")
+    def f_powi(I, st, a, c):
+        x, n = a
+        if is_sym(n) or n < 0 or n > 8:
+            raise _i.Unsupported("powi exponent")
+        r = Fraction(1) if I.mode != "float" else 1.0
+        for _ in range(n):
+            r = I.binop(st, "Mul", r, x, "f64")
+        return r
+
+    @reg("f64::mul_add")
+    def f_mul_add(I, st, a, c):
+        return I.binop(st, "Add", I.binop(st, "Mul", a[0], a[1], "f64"), a[2], "f64")
+
+    @reg("f64::sqrt")
+    def f_sqrt(I, st, a, c):
+        x = a[0]
+        if I.mode == "float":
+            return math.sqrt(x) if x >= 0 else math.nan
+        if not is_sym(x):
+            x = to_z3(x)
+        I._abbr = getattr(I, "_abbr", 0) + 1
+        r = z3.Real("sqrt!%d" % I._abbr)
+        st.obls.append(("sqrt: argument non-negative", x >= 0, len(st.pc)))
+        st.add([r >= 0, r * r == (z3.ToReal(x) if z3.is_int(x) else x)])
+        return r
+
+    @reg("f64::is_finite")
+    def f_is_finite(I, st, a, c):
+        if I.mode == "float":
+            return math.isfinite(a[0])
+        return True
+
+    @reg("f64::is_sign_negative")
+    def f_is_sign_negative(I, st, a, c):
+        x = a[0]
+        if not is_sym(x):
+            return math.copysign(1.0, float(x)) < 0
+        return x < 0
+
+    @reg("f64::is_sign_positive")
+    def f_is_sign_positive(I, st, a, c):
+        x = a[0]
+        if not is_sym(x):
+            return math.copysign(1.0, float(x)) > 0
+        return x >= 0
 
     @reg("i32::pow")
     def i_pow(I, st, a, c):
@@ -471,6 +578,118 @@ def build_table(I):
 
     T["Result::unwrap_or"] = unwrap_or_like("Ok")
     T["Option::unwrap_or"] = unwrap_or_like("Some")
+
+    def default_of(ty):
+        t = ty.strip()
+        if re.match(r"(std::collections::)?(hash_map::)?HashMap<", t) or t.startswith("HashMap<"):
+            return MapV("hash")
+        if "BTreeMap<" in t[:40]:
+            return MapV("btree")
+        if t.startswith("Vec<") or t.startswith("std::vec::Vec<"):
+            return VecV(())
+        if t in ("f64", "f32"):
+            return 0.0 if I.mode == "float" else Fraction(0)
+        if t in _i.INT_RANGES:
+            return 0
+        if t == "bool":
+            return False
+        if t == "()":
+            return UNIT
+        if t.startswith("std::option::Option<") or t.startswith("Option<"):
+            return none()
+        raise _i.Unsupported("default value of type %s" % ty)
+
+    def generic_arg(callee):
+        m = re.search(r"(?:Option|Result)::<(.*)>::\w+(?:::<.*>)?$", callee, re.S)
+        if not m:
+            raise _i.Unsupported("cannot read the type argument of %s" % callee)
+        from .mir import split_top
+        return split_top(m.group(1))[0]
+
+    @reg("Option::unwrap_or_default", "Result::unwrap_or_default")
+    def unwrap_or_default(I, st, a, c):
+        v = a[0]
+        okname = "Some" if v.ty == "Option" else "Ok"
+        cond = enum_is(v, okname)
+        acts = []
+        if cond is not False:
+            acts.append((None if cond is True else cond, ("ret", v.pay[okname][0])))
+        if cond is not True:
+            acts.append((None if cond is False else bnot(cond), ("ret", default_of(generic_arg(c)))))
+        return acts
+
+    def or_else_like(okname, with_fn):
+        def h(I, st, a, c):
+            v, alt = a[0], a[1]
+            cond = enum_is(v, okname)
+            acts = []
+            if cond is not False:
+                acts.append((None if cond is True else cond, ("ret", v.pay[okname][0] if with_fn == "unwrap" else v)))
+            if cond is not True:
+                cc = None if cond is False else bnot(cond)
+                if with_fn in ("unwrap", "fn"):
+                    args = [] if okname == "Some" else [v.pay["Err"][0] if v.pay.get("Err") else UNIT]
+                    acts.extend(with_cond(cc, invoke(I, st, alt, args, lambda st2, rv: ret(rv))))
+                else:
+                    acts.append((cc, ("ret", alt)))
+            return acts
+        return h
+
+    T["Option::unwrap_or_else"] = or_else_like("Some", "unwrap")
+    T["Result::unwrap_or_else"] = or_else_like("Ok", "unwrap")
+    T["Option::or_else"] = or_else_like("Some", "fn")
+    T["Option::or"] = or_else_like("Some", "val")
+
+    def and_then_like(ty, okname, other):
+        def h(I, st, a, c):
+            v, f = a[0], a[1]
+            cond = enum_is(v, okname)
+            acts = []
+            if cond is not False:
+                acts.extend(with_cond(None if cond is True else cond, invoke(I, st, f, [v.pay[okname][0]], lambda st2, rv: ret(rv))))
+            if cond is not True:
+                acts.append((None if cond is False else bnot(cond), ("ret", mk_enum(ty, other, v.pay.get(other, ())))))
+            return acts
+        return h
+
+    T["Option::and_then"] = and_then_like("Option", "Some", "None")
+    T["Result::and_then"] = and_then_like("Result", "Ok", "Err")
+
+    @reg("Option::is_some_and", "Result::is_ok_and")
+    def is_some_and(I, st, a, c):
+        v, f = a[0], a[1]
+        okname = "Some" if v.ty == "Option" else "Ok"
+        cond = enum_is(v, okname)
+        acts = []
+        if cond is not False:
+            acts.extend(with_cond(None if cond is True else cond, invoke(I, st, f, [v.pay[okname][0]], lambda st2, rv: ret(rv))))
+        if cond is not True:
+            acts.append((None if cond is False else bnot(cond), ("ret", False)))
+        return acts
+
+    @reg("Option::ok_or")
+    def ok_or(I, st, a, c):
+        v, e = a[0], a[1]
+        cond = enum_is(v, "Some")
+        acts = []
+        if cond is not False:
+            acts.append((None if cond is True else cond, ("ret", mk_enum("Result", "Ok", (v.pay["Some"][0],)))))
+        if cond is not True:
+            acts.append((None if cond is False else bnot(cond), ("ret", mk_enum("Result", "Err", (e,)))))
+        return acts
+
+    @reg("Option::copied", "Option::cloned")
+    def opt_copied(I, st, a, c):
+        v = a[0]
+        pay = {k: tuple(deref(I, st, x) for x in fs) for k, fs in v.pay.items()}
+        return Enum(v.ty, v.disc, pay)
+
+    @reg("Option::take")
+    def opt_take(I, st, a, c):
+        r = a[0]
+        v = deref(I, st, r)
+        I.write(st, r.cell, r.path, none())
+        return v
 
     T["Result::map"] = map_like("Result", "Ok", "Err")
     T["Option::map"] = map_like("Option", "Some", "None")
@@ -738,156 +957,372 @@ def build_table(I):
                 return hm_iter(I, st, [v], c)
         raise _i.Unsupported("into_iter of %r" % (v,))
 
+    # ---------------------------------------------------------------- lazy iterator framework
+    # An iterator value is Iter(kind, items, pos, extra) (or a Range/RangeInclusive struct). `nxt` advances one step and hands
+    # (state, new iterator, item or None) to a continuation that returns an action list; closures are called through `invoke`.
+    EMPTY = Iter("items", (), 0)
+    MAX_STEPS = [4000]
+
+    def as_iter(I, st, v):
+        if isinstance(v, Iter):
+            return v
+        if isinstance(v, Struct) and v.ty in ("Range", "RangeInclusive"):
+            return Iter("range", (), 0, extra=v)
+        if isinstance(v, (VecV, Arr)):
+            return Iter("items", v.items)
+        if isinstance(v, Enum) and v.ty == "Option":
+            return Iter("opt", (), 0, extra=v)
+        if isinstance(v, Ref):
+            t = deref(I, st, v)
+            if isinstance(t, (VecV, Arr)):
+                return Iter("items", [Ref(v.cell, v.path + (("i", i),)) for i in range(len(t.items))])
+            if isinstance(t, MapV):
+                return hm_iter(I, st, [v], "")
+            if isinstance(t, (Iter,)) or (isinstance(t, Struct) and t.ty in ("Range", "RangeInclusive")):
+                return as_iter(I, st, t)
+        raise _i.Unsupported("into_iter of %r" % (v,))
+
+    def nxt(I, st, it, k):
+        kind = it.kind
+        if kind == "items":
+            if it.pos < len(it.items):
+                return k(st, Iter("items", it.items, it.pos + 1, it.extra), it.items[it.pos])
+            return k(st, it, None)
+        if kind == "once":
+            if it.extra is None:
+                return k(st, it, None)
+            return k(st, Iter("once", (), 0, None), it.extra)
+        if kind == "opt":
+            v = it.extra
+            c_some = enum_is(v, "Some")
+            acts = []
+            if c_some is not False:
+                acts += with_cond(None if c_some is True else c_some, k(st, Iter("once", (), 0, None), v.pay["Some"][0]) if "Some" in v.pay else [])
+            if c_some is not True:
+                acts += with_cond(None if c_some is False else bnot(c_some), k(st, Iter("once", (), 0, None), None))
+            return acts
+        if kind == "range":
+            rg = it.extra
+            lo, hi = rg.fields[0], rg.fields[1]
+            if rg.ty == "Range":
+                cond = lo < hi
+                more = Iter("range", (), 0, extra=Struct("Range", (lo + 1, hi)))
+                if isinstance(cond, bool):
+                    return k(st, more, lo) if cond else k(st, it, None)
+                return with_cond(cond, k(st, more, lo)) + with_cond(z3.Not(cond), k(st, it, None))
+            done = rg.fields[2] if len(rg.fields) > 2 else False
+            if done is True:
+                return k(st, it, None)
+            lt, eq = lo < hi, lo == hi
+            more = Iter("range", (), 0, extra=Struct("RangeInclusive", (lo + 1, hi, False)))
+            last = Iter("range", (), 0, extra=Struct("RangeInclusive", (lo, hi, True)))
+            if isinstance(lt, bool) and isinstance(eq, bool):
+                if lt:
+                    return k(st, more, lo)
+                if eq:
+                    return k(st, last, lo)
+                return k(st, it, None)
+            lt, eq = to_z3(lt), to_z3(eq)
+            return with_cond(lt, k(st, more, lo)) + with_cond(eq, k(st, last, lo)) + with_cond(z3.And(z3.Not(lt), z3.Not(eq)), k(st, it, None))
+        if kind == "days":
+            start, kk, n = it.extra
+            item = Date(start.rd + kk)
+            more = Iter("days", (), 0, extra=(start, kk + 1, n))
+            if n is None:
+                return k(st, more, item)
+            cond = kk < n
+            if isinstance(cond, bool):
+                return k(st, more, item) if cond else k(st, it, None)
+            return with_cond(cond, k(st, more, item)) + with_cond(z3.Not(cond), k(st, it, None))
+        if kind == "chain":
+            a, b = it.extra
+            def ka(st2, a2, x):
+                if x is not None:
+                    return k(st2, Iter("chain", (), 0, (a2, b)), x)
+                return nxt(I, st2, b, lambda st3, b2, y: k(st3, Iter("chain", (), 0, (EMPTY, b2)), y))
+            return nxt(I, st, a, ka)
+        if kind == "map":
+            inner, f = it.extra
+            def km(st2, i2, x):
+                if x is None:
+                    return k(st2, Iter("map", (), 0, (i2, f)), None)
+                return invoke(I, st2, f, [x], lambda st3, rv: k(st3, Iter("map", (), 0, (i2, f)), rv))
+            return nxt(I, st, inner, km)
+        if kind == "enumerate":
+            inner, idx = it.extra
+            def ke(st2, i2, x):
+                if x is None:
+                    return k(st2, Iter("enumerate", (), 0, (i2, idx)), None)
+                return k(st2, Iter("enumerate", (), 0, (i2, idx + 1)), Tup([idx, x]))
+            return nxt(I, st, inner, ke)
+        if kind == "take":
+            inner, n = it.extra
+            cond = n > 0
+            def kt(st2, i2, x):
+                return k(st2, Iter("take", (), 0, (i2, n - 1)), x)
+            if isinstance(cond, bool):
+                return nxt(I, st, inner, kt) if cond else k(st, it, None)
+            return with_cond(cond, nxt(I, st, inner, kt)) + with_cond(z3.Not(cond), k(st, it, None))
+        if kind == "skip":
+            inner, n = it.extra
+            if is_sym(n):
+                raise _i.Unsupported("symbolic skip")
+            if n <= 0:
+                return nxt(I, st, inner, lambda st2, i2, x: k(st2, Iter("skip", (), 0, (i2, 0)), x))
+            return nxt(I, st, inner, lambda st2, i2, x: k(st2, it, None) if x is None else nxt(I, st2, Iter("skip", (), 0, (i2, n - 1)), k))
+        if kind in ("filter", "filter_map", "take_while"):
+            inner, f = it.extra
+            def kf(st2, i2, x):
+                me = Iter(kind, (), 0, (i2, f))
+                if x is None:
+                    return k(st2, me, None)
+                def after(st3, rv):
+                    if kind == "filter_map":
+                        c_some = enum_is(rv, "Some")
+                        acts = []
+                        if c_some is not False:
+                            acts += with_cond(None if c_some is True else c_some, k(st3, me, rv.pay["Some"][0]))
+                        if c_some is not True:
+                            acts += with_cond(None if c_some is False else bnot(c_some), nxt(I, st3, me, k))
+                        return acts
+                    stop = (lambda s_: k(s_, Iter("items", (), 0), None)) if kind == "take_while" else (lambda s_: nxt(I, s_, me, k))
+                    if isinstance(rv, bool):
+                        return k(st3, me, x) if rv else stop(st3)
+                    return with_cond(rv, k(st3, me, x)) + with_cond(z3.Not(rv), stop(st3))
+                arg = x
+                if kind in ("filter", "take_while"):
+                    arg = Ref(st2.alloc(x), ())
+                return invoke(I, st2, f, [arg], after)
+            return nxt(I, st, inner, kf)
+        if kind == "flat_map":
+            inner, f, cur = it.extra
+            if cur is not None:
+                def kc(st2, c2, x):
+                    if x is not None:
+                        return k(st2, Iter("flat_map", (), 0, (inner, f, c2)), x)
+                    return nxt(I, st2, Iter("flat_map", (), 0, (inner, f, None)), k)
+                return nxt(I, st, cur, kc)
+            def ki(st2, i2, x):
+                if x is None:
+                    return k(st2, Iter("flat_map", (), 0, (i2, f, None)), None)
+                if f is None:       # flatten
+                    return nxt(I, st2, Iter("flat_map", (), 0, (i2, f, as_iter(I, st2, x))), k)
+                return invoke(I, st2, f, [x], lambda st3, rv: nxt(I, st3, Iter("flat_map", (), 0, (i2, f, as_iter(I, st3, rv))), k))
+            return nxt(I, st, inner, ki)
+        if kind == "zip":
+            a, b = it.extra
+            return nxt(I, st, a, lambda st2, a2, x: k(st2, it, None) if x is None else
+                       nxt(I, st2, b, lambda st3, b2, y: k(st3, it, None) if y is None else k(st3, Iter("zip", (), 0, (a2, b2)), Tup([x, y]))))
+        raise _i.Unsupported("next on iterator kind %s" % kind)
+
+    def consume(I, st, it, step, done, n=0):
+        """Drive an iterator to exhaustion: step(st, item, cont) -> actions, where cont(st) continues; done(st) -> actions at the end."""
+        if n > I.max_unroll * 4 + 64:
+            return [(None, panic("iterator longer than the unrolling bound (inconclusive)"))]
+        def k(st2, it2, x):
+            if x is None:
+                return done(st2)
+            return step(st2, x, lambda st3: consume(I, st3, it2, step, done, n + 1))
+        return nxt(I, st, it, k)
+
+    @reg("IntoIterator::into_iter")
+    def into_iter(I, st, a, c):
+        return as_iter(I, st, a[0])
+
     @reg("Iterator::enumerate")
     def it_enumerate(I, st, a, c):
-        it = a[0]
-        return Iter("items", [Tup([i, x]) for i, x in enumerate(it.items[it.pos:])])
+        return Iter("enumerate", (), 0, (as_iter(I, st, a[0]), 0))
 
     @reg("Iterator::map")
     def it_map(I, st, a, c):
-        return Iter("map", a[0].items, a[0].pos, extra=(a[0], a[1]))
+        return Iter("map", (), 0, (as_iter(I, st, a[0]), a[1]))
+
+    @reg("Iterator::filter")
+    def it_filter(I, st, a, c):
+        return Iter("filter", (), 0, (as_iter(I, st, a[0]), a[1]))
+
+    @reg("Iterator::filter_map")
+    def it_filter_map(I, st, a, c):
+        return Iter("filter_map", (), 0, (as_iter(I, st, a[0]), a[1]))
+
+    @reg("Iterator::take_while")
+    def it_take_while(I, st, a, c):
+        return Iter("take_while", (), 0, (as_iter(I, st, a[0]), a[1]))
+
+    @reg("Iterator::flat_map")
+    def it_flat_map(I, st, a, c):
+        return Iter("flat_map", (), 0, (as_iter(I, st, a[0]), a[1], None))
+
+    @reg("Iterator::flatten")
+    def it_flatten(I, st, a, c):
+        return Iter("flat_map", (), 0, (as_iter(I, st, a[0]), None, None))
+
+    @reg("Iterator::chain")
+    def it_chain(I, st, a, c):
+        return Iter("chain", (), 0, (as_iter(I, st, a[0]), as_iter(I, st, a[1])))
+
+    @reg("Iterator::zip")
+    def it_zip(I, st, a, c):
+        return Iter("zip", (), 0, (as_iter(I, st, a[0]), as_iter(I, st, a[1])))
+
+    @reg("Iterator::skip")
+    def it_skip(I, st, a, c):
+        return Iter("skip", (), 0, (as_iter(I, st, a[0]), a[1]))
+
+    @reg("Iterator::rev")
+    def it_rev(I, st, a, c):
+        it = as_iter(I, st, a[0])
+        if it.kind == "items":
+            return Iter("items", tuple(reversed(it.items[it.pos:])))
+        if it.kind == "range" and not is_sym(it.extra.fields[0]) and not is_sym(it.extra.fields[1]):
+            lo, hi = it.extra.fields[0], it.extra.fields[1]
+            hi2 = hi + 1 if it.extra.ty == "RangeInclusive" else hi
+            return Iter("items", tuple(reversed(range(lo, hi2))))
+        raise _i.Unsupported("rev of a symbolic iterator")
+
+    @reg("iter::once", "once")
+    def it_once(I, st, a, c):
+        return Iter("once", (), 0, a[0])
+
+    @reg("iter::empty", "empty")
+    def it_empty(I, st, a, c):
+        return EMPTY
 
     @reg("Iterator::take")
     def it_take(I, st, a, c):
-        it, n = a
-        if isinstance(it, Iter) and it.kind == "days":
-            return Iter("days", (), 0, extra=(it.extra[0], 0, n))
-        if is_sym(n):
-            raise _i.Unsupported("symbolic take")
-        return Iter(it.kind, it.items[it.pos:it.pos + n], 0, it.extra)
+        it, n = as_iter(I, st, a[0]), a[1]
+        if it.kind == "days":
+            return Iter("days", (), 0, extra=(it.extra[0], it.extra[1], n))
+        return Iter("take", (), 0, (it, n))
 
     @reg("Iterator::next")
     def it_next(I, st, a, c):
         r = a[0]
-        it = deref(I, st, r)
-        if isinstance(it, Struct) and it.ty in ("Range", "RangeInclusive"):
-            return range_next(I, st, r, it)
-        if it.kind == "items":
-            if it.pos < len(it.items):
-                I.write(st, r.cell, r.path, Iter("items", it.items, it.pos + 1, it.extra))
-                return some(it.items[it.pos])
-            return none()
-        if it.kind == "days":
-            start, k, n = it.extra
-            cond = (k < n)
-            nxt = Date(start.rd + k)
-            def adv(s):
-                pass
-            acts = []
-            if cond is not False:
-                if cond is True or not isinstance(cond, bool):
-                    pass
-            # fork on k < n
-            def upd(st2):
-                I.write(st2, r.cell, r.path, Iter("days", (), 0, extra=(start, k + 1, n)))
-            if isinstance(cond, bool):
-                if cond:
-                    upd(st)
-                    return some(nxt)
-                return none()
-            return [(cond, ("do", upd, some(nxt))), (z3.Not(cond), ("ret", none()))]
-        raise _i.Unsupported("next on %r" % (it,))
+        it = as_iter(I, st, deref(I, st, r))
+        def k(st2, it2, x):
+            newv = it2.extra if (it2.kind == "range" and isinstance(deref(I, st2, r), Struct)) else it2
+            def upd(st3):
+                I.write(st3, r.cell, r.path, newv)
+            return [(None, ("do", upd, some(x) if x is not None else none()))]
+        return nxt(I, st, it, k)
 
-    def range_next(I, st, r, rg):
-        lo, hi = rg.fields[0], rg.fields[1]
-        if rg.ty == "Range":
-            cond = lo < hi
-            newv = Struct("Range", (lo + 1, hi))
-            if isinstance(cond, bool):
-                if cond:
-                    I.write(st, r.cell, r.path, newv)
-                    return some(lo)
-                return none()
-            def upd(st2):
-                I.write(st2, r.cell, r.path, newv)
-            return [(cond, ("do", upd, some(lo))), (z3.Not(cond), ("ret", none()))]
-        # RangeInclusive { start, end, exhausted }
-        done = rg.fields[2] if len(rg.fields) > 2 else False
-        if done is True:
-            return none()
-        lt, eq = lo < hi, lo == hi
-        def upd_more(st2):
-            I.write(st2, r.cell, r.path, Struct("RangeInclusive", (lo + 1, hi, False)))
-        def upd_last(st2):
-            I.write(st2, r.cell, r.path, Struct("RangeInclusive", (lo, hi, True)))
-        if isinstance(lt, bool) and isinstance(eq, bool):
-            if lt:
-                upd_more(st)
-                return some(lo)
-            if eq:
-                upd_last(st)
-                return some(lo)
-            return none()
-        lt, eq = to_z3(lt), to_z3(eq)
-        return [(lt, ("do", upd_more, some(lo))), (eq, ("do", upd_last, some(lo))), (z3.And(z3.Not(lt), z3.Not(eq)), ("ret", none()))]
-
-    def iter_items(I, st, it):
-        """Materialise remaining items of a (possibly mapped) iterator as (items, [closures inner->outer])."""
-        fs = []
-        while it.kind == "map":
-            inner, f = it.extra
-            fs.append(f)
-            it = inner
-        if it.kind != "items":
-            raise _i.Unsupported("iter kind %s" % it.kind)
-        return list(it.items[it.pos:]), list(reversed(fs))
-
-    def drive(I, st, items, fs, finish, step=None):
-        """Apply closures fs to each item in order, then finish(st, results) -> action list."""
-        def at(i, acc, st_):
-            if i == len(items):
-                return finish(st_, acc)
-            def chain(j, val, st2):
-                if j == len(fs):
-                    if step is not None:
-                        return step(st2, i, val, acc, lambda st3, acc2: at(i + 1, acc2, st3))
-                    return at(i + 1, acc + [val], st2)
-                return invoke(I, st2, fs[j], [val], lambda st3, rv: chain(j + 1, rv, st3))
-            return chain(0, items[i], st_)
-        return at(0, [], st)
-
-    @reg("FromIterator::from_iter")
+    @reg("FromIterator::from_iter", "Iterator::collect")
     def from_iter(I, st, a, c):
-        kind = "btree" if "BTreeMap" in c.split(" as ")[0] else "hash" if "HashMap" in c.split(" as ")[0] else "vec"
-        items, fs = iter_items(I, st, a[0])
-        def finish(st2, acc):
+        head = c.split(" as ")[0]
+        kind = "btree" if "BTreeMap" in head else "hash" if "HashMap" in head else "vec"
+        if "Iterator::collect" in c or c.endswith("collect"):
+            kind = "btree" if "BTreeMap" in c else "hash" if "HashMap" in c else "vec"
+        acc = []
+        def step(st2, x, cont):
+            acc.append(x)
+            return cont(st2)
+        def finish(st2):
             if kind == "vec":
-                return ret(VecV(acc))
+                return ret(VecV(list(acc)))
             m = MapV(kind)
             for t in acc:
                 m = m.set(keyof(t.items[0]), t.items[1])
             return ret(m)
-        return drive(I, st, items, fs, finish)
+        # `acc` is per call and paths are explored depth-first per fork: keep it immutable-safe by rebuilding on every step
+        def run(st2, it, got):
+            def k(st3, it2, x):
+                if x is None:
+                    if kind == "vec":
+                        return ret(VecV(list(got)))
+                    m = MapV(kind)
+                    for t in got:
+                        m = m.set(keyof(t.items[0]), t.items[1])
+                    return ret(m)
+                return run(st3, it2, got + [x])
+            return nxt(I, st2, it, k)
+        return run(st, as_iter(I, st, a[0]), [])
 
-    @reg("Iterator::collect")
-    def it_collect(I, st, a, c):
-        return from_iter(I, st, a, "<Vec as FromIterator>::from_iter" if "Vec" in c else c)
+    def searcher(mode):
+        def h(I, st, a, c):
+            r, f = a[0], a[1]
+            src = deref(I, st, r) if isinstance(r, Ref) else r
+            it = as_iter(I, st, src)
+            def write_back(st2, it2):
+                if isinstance(r, Ref):
+                    I.write(st2, r.cell, r.path, it2.extra if (it2.kind == "range" and isinstance(src, Struct)) else it2)
+            def run(st2, it_, n):
+                if n > I.max_unroll * 4 + 64:
+                    return [(None, panic("iterator longer than the unrolling bound (inconclusive)"))]
+                def k(st3, it2, x):
+                    if x is None:
+                        write_back(st3, it2)
+                        return ret({"any": False, "all": True, "find": none(), "find_map": none(), "position": none()}[mode])
+                    def after(st4, rv):
+                        if mode == "find_map":
+                            c_some = enum_is(rv, "Some")
+                            acts = []
+                            if c_some is not False:
+                                def fin(st5, rv=rv, it2=it2):
+                                    write_back(st5, it2)
+                                acts += with_cond(None if c_some is True else c_some, [(None, ("do", fin, rv))])
+                            if c_some is not True:
+                                acts += with_cond(None if c_some is False else bnot(c_some), run(st4, it2, n + 1))
+                            return acts
+                        hit = {"any": True, "all": False, "find": some(x), "position": some(n)}[mode]
+                        want = rv if mode != "all" else bnot(rv)
+                        def fin(st5, it2=it2):
+                            write_back(st5, it2)
+                        if isinstance(want, bool):
+                            return [(None, ("do", fin, hit))] if want else run(st4, it2, n + 1)
+                        return with_cond(want, [(None, ("do", fin, hit))]) + with_cond(z3.Not(want), run(st4, it2, n + 1))
+                    arg = Ref(st3.alloc(x), ()) if mode == "find" else x
+                    return invoke(I, st3, f, [arg], after)
+                return nxt(I, st2, it_, k)
+            return run(st, it, 0)
+        return h
 
-    @reg("Iterator::any")
-    def it_any(I, st, a, c):
-        r, f = a
-        it = deref(I, st, r)
-        items, fs = iter_items(I, st, it)
-        def step(st2, i, val, acc, cont):
-            def after(st3, rv):
-                if isinstance(rv, bool):
-                    return ret(True) if rv else cont(st3, acc)
-                return [(rv, ("ret", True))] + with_cond(z3.Not(rv), cont(st3, acc))
-            return invoke(I, st2, f, [val], after)
-        return drive(I, st, items, fs, lambda st2, acc: ret(False), step)
+    T["Iterator::any"] = searcher("any")
+    T["Iterator::all"] = searcher("all")
+    T["Iterator::find"] = searcher("find")
+    T["Iterator::find_map"] = searcher("find_map")
+    T["Iterator::position"] = searcher("position")
 
     @reg("Iterator::fold")
     def it_fold(I, st, a, c):
-        it, init, f = a
-        items, fs = iter_items(I, st, it)
-        state = {"acc": init}
-        def go(i, acc, st_):
-            if i == len(items):
-                return ret(acc)
-            return invoke(I, st_, f, [acc, items[i]], lambda st2, rv: go(i + 1, rv, st2))
-        if fs:
-            raise _i.Unsupported("fold over mapped iterator")
-        return go(0, init, st)
+        it, init, f = as_iter(I, st, a[0]), a[1], a[2]
+        def run(st2, it_, acc, n):
+            if n > I.max_unroll * 4 + 64:
+                return [(None, panic("iterator longer than the unrolling bound (inconclusive)"))]
+            def k(st3, it2, x):
+                if x is None:
+                    return ret(acc)
+                return invoke(I, st3, f, [acc, x], lambda st4, rv: run(st4, it2, rv, n + 1))
+            return nxt(I, st2, it_, k)
+        return run(st, it, init, 0)
+
+    @reg("Iterator::for_each")
+    def it_for_each(I, st, a, c):
+        it, f = as_iter(I, st, a[0]), a[1]
+        def run(st2, it_, n):
+            def k(st3, it2, x):
+                if x is None:
+                    return ret(UNIT)
+                return invoke(I, st3, f, [x], lambda st4, rv: run(st4, it2, n + 1))
+            return nxt(I, st2, it_, k)
+        return run(st, it, 0)
+
+    @reg("Iterator::count")
+    def it_count(I, st, a, c):
+        def run(st2, it_, n):
+            return nxt(I, st2, it_, lambda st3, it2, x: ret(n) if x is None else run(st3, it2, n + 1))
+        return run(st, as_iter(I, st, a[0]), 0)
+
+    @reg("Iterator::last")
+    def it_last(I, st, a, c):
+        def run(st2, it_, last):
+            return nxt(I, st2, it_, lambda st3, it2, x: ret(some(last) if last is not None else none()) if x is None else run(st3, it2, x))
+        return run(st, as_iter(I, st, a[0]), None)
+
+    @reg("Iterator::sum")
+    def it_sum(I, st, a, c):
+        def run(st2, it_, acc):
+            return nxt(I, st2, it_, lambda st3, it2, x: ret(acc) if x is None else run(st3, it2, I.binop(st3, "Add", acc, deref(I, st3, x), None)))
+        return run(st, as_iter(I, st, a[0]), 0)
 
     # ---------------------------------------------------------------- ranges
     @reg("RangeInclusive::new")
@@ -904,6 +1339,35 @@ def build_table(I):
         if I.mode == "float":
             return lo <= x <= hi
         return conj([lo <= x, x <= hi])
+
+    @reg("Range::contains")
+    def r_contains(I, st, a, c):
+        rg = deref(I, st, a[0])
+        x = deref(I, st, a[1])
+        lo, hi = rg.fields[0], rg.fields[1]
+        if isinstance(x, Date):
+            x, lo, hi = x.rd, lo.rd, hi.rd
+        if I.mode == "float":
+            return lo <= x < hi
+        return conj([lo <= x, x < hi])
+
+    @reg("RangeFrom::contains")
+    def rf_contains(I, st, a, c):
+        rg = deref(I, st, a[0])
+        x = deref(I, st, a[1])
+        return rg.fields[0] <= x
+
+    @reg("RangeTo::contains")
+    def rt_contains(I, st, a, c):
+        rg = deref(I, st, a[0])
+        x = deref(I, st, a[1])
+        return x < rg.fields[0]
+
+    @reg("RangeToInclusive::contains")
+    def rti_contains(I, st, a, c):
+        rg = deref(I, st, a[0])
+        x = deref(I, st, a[1])
+        return x <= rg.fields[0]
 
     @reg("RangeInclusive::start")
     def ri_start(I, st, a, c):
